@@ -6,6 +6,15 @@ props = [json.loads(l) for l in open(os.path.join(HERE, "properties.jsonl"))]
 
 KERN = 'the interpreter that maps op records to API calls (harness/drivers/kernel.py) and TLC are trusted; bounds as listed in the evidence; integer delays only'
 BUILT = {
+
+ "C06": dict(
+   technique="TLA+ spec SimKernel.tla (resource section) + ResMC model-checked with TLC over all request/release/cancel/with-exit histories within bounds; emitted histories replayed on the real Resource/PriorityResource/PreemptiveResource; generated longer histories validated by TLC",
+   text="TLC enumerates every history of 2 processes x 3 ops (3 x 2 in the thorough tier) over request(priority, preempt), release, cancel, with-exit, sleep and yield on resources of capacity 1-2 and checks Capacity, NoIdleSlot (whenever the clock is about to advance), QueueSorted, GrantOrder, PreemptRule and NoEvictionWithoutPreempt; every emitted history is executed on the real classes step by step and the log (grant instants, Interrupt(Preempted(by, usage_since, resource)) causes, users and queue after every kernel step) compared with the specification's; generated histories with up to 5 processes are validated by TLC.",
+   note=KERN + "; each process holds or awaits at most one request per resource and leaves its with-block before ending, as the property's quantifier says", design="6/C06"),
+ "C07": dict(
+   technique="TLA+ spec SimKernel.tla (resource section) + ResMC model-checked with TLC over all put/get/cancel histories within bounds; emitted histories replayed on the real Container/Store/PriorityStore/FilterStore; generated longer histories validated by TLC",
+   text="TLC enumerates every history of 2 processes x 3 ops over put, get, cancel, sleep and yield on a container and on stores of capacity 1-2 with unique items and filters and checks LevelBounds, LevelConservation, StoreBound, ItemsOnce, StoreOrder, QueueFifo and NoStranded (whenever the clock is about to advance, also after cancellations); every emitted history is executed on the real classes step by step and the log (items and grant instants received, level, items and queue lengths after every kernel step) compared; generated longer histories are validated by TLC.",
+   note=KERN, design="6/C07"),
  "C09": dict(
    technique="TLA+ spec Port.tla model-checked with TLC (tail-drop and RED configs) + TLC trace validation of the real Port/REDPort/PortMonitor on TLC-emitted and random lattice workloads",
    text="Exhaustive TLC run of the timed port specification (all arrival patterns within the stated bounds, three limit modes, rate 0, RED with scripted draws) checks the departure law, occupancy bound, counter identity, byte accounting and the RED region rules; every emitted workload (sampled in the quick tier) and seeded random larger ones are executed on the real classes and each recorded trace (arrivals, departures, monitor samples, public counters after every event) must be a behaviour of the same specification.",
